@@ -15,7 +15,7 @@ CONSTANTS
   TreeIds = {7, 9}
   SparseIds = {}
   XP = "respect"
-  Strict = FALSE
+  Strict = "none"
   Emit = FALSE
 INVARIANTS Inv_C23
 VIEW View
